@@ -29,6 +29,13 @@ CHECKS = {
              '/allocations in the same path: no rejecting PUT path may be '
              'feasible.',
         ref='DESIGN.md section 5 C02'),
+    'C13': dict(
+        text='Bounded symbolic model checking against a per-provider oracle: '
+             'for 26+ filter combinations every path of the real GET '
+             '/resource_providers over symbolic inventories, usage, trait and '
+             'aggregate bits and requested amounts; z3 proves listed <=> '
+             'matches(p) for every provider on every path.',
+        ref='DESIGN.md section 5 C13, Appendix B'),
     'C20': dict(
         text='Bounded symbolic model checking: unlimited and limit=1..M+1 '
              'requests run in one path over a symbolic state; random.sample/'
